@@ -80,10 +80,6 @@ Qed.
 
 Section Crash.
   Variable cfg : fscfg.
-  (* escaping applied and injective, or no escaping at all (then enc_key is the identity) *)
-  Hypothesis enc_inj : forall k k', enc_key cfg k = enc_key cfg k' -> k = k'.
-  (* the contents that may legitimately be found under a key *)
-  Variable C : key -> bytes -> Prop.
 
   Definition keylen : nat := length (f_base cfg) + shard_depth (f_shard cfg) + 1.
 
@@ -120,6 +116,12 @@ Section Crash.
     - inversion E. destruct cs'; discriminate.
   Qed.
 
+  Lemma staging_nonnil : forall p, in_staging p -> p <> [].
+  Proof. intros p [name E] X. subst. unfold stage_path in X. destruct (f_base cfg); discriminate. Qed.
+
+  (* escaping applied and injective, or no escaping at all (then enc_key is the identity) *)
+  Hypothesis enc_inj : forall k k', enc_key cfg k = enc_key cfg k' -> k = k'.
+
   Lemma keypath_inj : forall k k' p, keypath k p -> keypath k' p -> k = k'.
   Proof.
     intros k k' p H H'. destruct (keypath_shape k p H) as [cs [E _]].
@@ -128,8 +130,8 @@ Section Crash.
     apply enc_inj. tauto.
   Qed.
 
-  Lemma staging_nonnil : forall p, in_staging p -> p <> [].
-  Proof. intros p [name E] X. subst. unfold stage_path in X. destruct (f_base cfg); discriminate. Qed.
+  (* the contents that may legitimately be found under a key *)
+  Variable C : key -> bytes -> Prop.
 
   (* ---------------------------------------------------------------- the invariant *)
 
